@@ -994,3 +994,129 @@ func (w *World) exprIsJustField(fi *FuncInfo, qual string) func(ast.Expr) bool {
 		return true
 	}
 }
+
+// funcsOfPkgPrefixes: the declared functions (with bodies) of the packages under the given prefixes.
+func (w *World) funcsOfPkgPrefixes(pkgPrefixes ...string) []*FuncInfo {
+	var out []*FuncInfo
+	for _, fi := range w.Funcs {
+		rel := short(fi.Pkg.PkgPath)
+		for _, p := range pkgPrefixes {
+			if (rel == p || strings.HasPrefix(rel, p+"/")) && fi.Decl.Body != nil {
+				out = append(out, fi)
+				break
+			}
+		}
+	}
+	return out
+}
+
+// dispatchLabels: the constants a function distinguishes a value by - the case labels of
+// switches on it, the constants it is compared with (==, !=) in conditions, and the constant
+// keys of a map literal it indexes: the three ways of writing a dispatch.
+func (w *World) dispatchLabels(fi *FuncInfo, tagPred func(ast.Expr) bool) (labels []string, sites []token.Pos) {
+	set := map[string]bool{}
+	for _, sw := range w.switches(fi, tagPred) {
+		for _, l := range sw.Labels {
+			set[l] = true
+		}
+		sites = append(sites, sw.Pos)
+	}
+	for _, f := range w.astRegion(fi) {
+		if f.Pkg != fi.Pkg {
+			continue
+		}
+		info := f.Pkg.TypesInfo
+		constOf := func(e ast.Expr) (string, bool) {
+			if tv, ok := info.Types[e]; ok && tv.Value != nil {
+				return constString(tv.Value), true
+			}
+			return "", false
+		}
+		ast.Inspect(f.Decl, func(n ast.Node) bool {
+			switch x := n.(type) {
+			case *ast.BinaryExpr:
+				if x.Op != token.EQL && x.Op != token.NEQ {
+					return true
+				}
+				if k, ok := constOf(x.Y); ok && tagPred(ast.Unparen(x.X)) {
+					set[k] = true
+					sites = append(sites, x.Pos())
+				} else if k, ok := constOf(x.X); ok && tagPred(ast.Unparen(x.Y)) {
+					set[k] = true
+					sites = append(sites, x.Pos())
+				}
+			case *ast.IndexExpr:
+				if !tagPred(ast.Unparen(x.Index)) {
+					return true
+				}
+				// the indexed map: a composite literal in place, a local or a package-level variable initialised with one
+				var lit *ast.CompositeLit
+				switch m := ast.Unparen(x.X).(type) {
+				case *ast.CompositeLit:
+					lit = m
+				case *ast.Ident:
+					if v, ok := info.ObjectOf(m).(*types.Var); ok {
+						lit = w.mapLiteralOf(f, v)
+					}
+				}
+				if lit == nil {
+					return true
+				}
+				for _, el := range lit.Elts {
+					if kv, ok := el.(*ast.KeyValueExpr); ok {
+						if k, ok := constOf(kv.Key); ok {
+							set[k] = true
+						}
+					}
+				}
+				sites = append(sites, x.Pos())
+			}
+			return true
+		})
+	}
+	return keys(set), sites
+}
+
+// mapLiteralOf: the composite literal a map variable (local of f, or package-level in f's
+// package) is initialised with, if it is never reassigned in f.
+func (w *World) mapLiteralOf(f *FuncInfo, v *types.Var) *ast.CompositeLit {
+	if v.Pkg() != nil && v.Parent() == v.Pkg().Scope() {
+		for _, file := range f.Pkg.Syntax {
+			for _, d := range file.Decls {
+				gd, ok := d.(*ast.GenDecl)
+				if !ok || gd.Tok != token.VAR {
+					continue
+				}
+				for _, sp := range gd.Specs {
+					vs := sp.(*ast.ValueSpec)
+					for i, nm := range vs.Names {
+						if f.Pkg.TypesInfo.Defs[nm] == v && i < len(vs.Values) {
+							if cl, ok := vs.Values[i].(*ast.CompositeLit); ok {
+								return cl
+							}
+						}
+					}
+				}
+			}
+		}
+		return nil
+	}
+	ds := w.defsOf(f).defs[v]
+	if len(ds) == 1 {
+		if cl, ok := ast.Unparen(ds[0]).(*ast.CompositeLit); ok {
+			return cl
+		}
+	}
+	return nil
+}
+
+// identOf: the identifier a function expression names (f, pkg.f, recv.f), or nil.
+func identOf(e ast.Expr) *ast.Ident {
+	switch x := ast.Unparen(e).(type) {
+	case *ast.Ident:
+		return x
+	case *ast.SelectorExpr:
+		return x.Sel
+	}
+	return nil
+}
